@@ -67,6 +67,9 @@ def truth(clause, vals):
     return (not r) if clause.get("neg") else bool(r)
 
 
+DECIMAL_AMBIGUOUS = set()
+
+
 def single_clauses():
     """the table of single clauses: list of (clause, vals)"""
     out = []
@@ -100,6 +103,30 @@ def single_clauses():
     for v in (0, 1, -1, 0.0, 0.5, "", "a", True, False, None):
         for neg in (False, True):
             out.append(({"kind": "bool", "state": ".q.s", "neg": neg}, {".q.s": v, ".q.g": 0}))
+    # decimal (not binary-exact) values on and next to the edge of the tolerance band. The band test is stated as
+    # goal-|tol| <= state <= goal+|tol|; only triples for which that formula gives the same verdict in float
+    # arithmetic as in exact arithmetic on the written decimals are used (so the expected verdict does not depend
+    # on how one reads the statement); the others are counted in DECIMAL_AMBIGUOUS
+    from fractions import Fraction as F
+    for gs in ("2.0", "0.3", "-2.0", "0.7", "1.1", "10.4"):
+        for ts in ("0.1", "0.2", "0.3", "-0.1"):
+            for off in ("-1", "1", "-1.5", "1.5", "-0.5", "0.5", "0"):
+                st_exact = F(gs) + F(off) * abs(F(ts))
+                ss = str(float(st_exact))
+                if F(ss) != st_exact:
+                    continue        # state not writable as the same short decimal
+                g, t, sv = float(gs), float(ts), float(ss)
+                exact = (F(gs) - abs(F(ts))) <= st_exact <= (F(gs) + abs(F(ts)))
+                flt = (g - abs(t)) <= sv <= (g + abs(t))
+                if exact != flt:
+                    DECIMAL_AMBIGUOUS.add((ss, gs, ts))
+                    continue
+                for op in ("==", "!="):
+                    for neg in (False, True):
+                        for indirect in (False, True):
+                            c = {"kind": "cmp", "state": ".q.s", "op": op, "neg": neg, "tol": t,
+                                 "goal": {"path": ".q.g"} if indirect else g}
+                            out.append((c, {".q.s": sv, ".q.g": g}))
     # framer clocks: bare spelling and the explicit `state re [me|<own framer name>]` spelling, goal direct or
     # from a share, with and without tolerance
     for op in OPS:
@@ -209,13 +236,16 @@ def work(shard, seed, tier):
             fails, obs = run_items(items)
             for (needs, vals) in items:
                 acc.case(key=(A.render_needs(needs), sorted(vals.items(), key=str)), nontrivial=is_nt(needs, vals),
-                         classes=[needs[0]["kind"] + ("" if "op" not in needs[0] else needs[0]["op"])])
+                         classes=[needs[0]["kind"] + ("" if "op" not in needs[0] else needs[0]["op"])] +
+                         (["decimal-band-edge"] if needs[0]["kind"] == "cmp" and needs[0].get("tol") and
+                          isinstance(vals.get(".q.s"), float) and not float(vals[".q.s"] * 8).is_integer() else []))
             if c0 == 0:
                 acc.samples.append({"conditions": [A.render_needs(n) for n, v in items[:6]], "values": [v for n, v in items[:6]]})
             for sig, what in fails:
                 acc.fail(sig, what, {"items": [[n, v] for n, v in items]})
         acc.exhaustive = True
-        acc.note("single-clause table enumerated completely (%d clauses)" % len(single_clauses()))
+        acc.note("single-clause table enumerated completely (%d clauses); %d decimal band-edge triples left out because "
+                 "float and exact evaluation of the stated band formula differ" % (len(single_clauses()), len(DECIMAL_AMBIGUOUS)))
         return acc
     table = single_clauses()
 
@@ -257,11 +287,12 @@ def replay(case):
 
 
 RULE = ("full table of single clauses (6 operators x not x int/float/negative/zero/string/bool states x goal on/below/above the state x direct/indirect goal x "
-        "tolerance none/0/0.5/-0.5; elapsed/recurred clocks in the bare and the `re [me|framer]` spelling with direct/indirect goal and tolerance; bare truthiness) + Hypothesis conjunctions of 1-3 clauses; each clause is a `go b if ..` whose "
+        "tolerance none/0/0.5/-0.5; decimal states on / inside / outside the edge of decimal tolerance bands; elapsed/recurred clocks in the bare and the `re [me|framer]` spelling with direct/indirect goal and tolerance; bare truthiness) + Hypothesis conjunctions of 1-3 clauses; each clause is a `go b if ..` whose "
         "outcome at its first evaluation is compared with direct evaluation of the written comparison. non-trivial = negated, conjunction, clock, or goal "
         "within 0.5 of the state (boundary); distinct = distinct (condition text, share values)")
 ASSUMPTIONS = ["ordering operators are only generated between number-number and string-string operands",
                "booleans are compared with ==/!= against booleans without tolerance and by bare truthiness only (whether a bool is a 'number' for the tolerance rule is not stated)",
+               "decimal band-edge values are only used where goal-|tol| <= state <= goal+|tol| has the same verdict in float arithmetic and in exact arithmetic on the written decimals",
                "at the first evaluation elapsed equals one tick period (0.125) and recurred equals 1 (C11 decides the clocks)"]
 META = {"level": LEVEL,
         "text": "The complete table of single comparison clauses and thousands of conjunctions are run through the real builder and framer and compared with direct evaluation.",
